@@ -3,11 +3,19 @@ verus! {
 
 global size_of usize == 8;
 
+#[verifier::external_body]
+pub fn vpanic() -> !
+    requires false,
+{ panic!() }
+
 pub const MAX_BLOCK_SIZE: u32 = 128 * 1024;
 
 pub struct Error { pub k: u8 }
 pub trait Read {
     spec fn avail(&self) -> int;
+    /// ghost mode flag: the reader is a caller-provided chunk of an incremental (slice-to-slice) decode; running out of bytes in the
+    /// middle of a block would then turn "need more input" into a hard error, so a block body may only be decoded when it is entirely present
+    spec fn incremental() -> bool;
     fn read_exact(&mut self, buf: &mut [u8]) -> (r: Result<(), Error>)
         ensures
             final(buf)@.len() == old(buf)@.len(),
@@ -17,6 +25,19 @@ pub trait Read {
 }
 #[verifier::external_body]
 pub fn le_u32(b: [u8; 4]) -> (r: u32) { unimplemented!() }
+/// `s[..4].try_into().expect(..)`: the first four bytes as an array (slice -> array conversion is outside Verus' std specs)
+#[verifier::external_body]
+pub fn first4(s: &[u8]) -> (r: [u8; 4])
+    requires s@.len() >= 4,
+{ unimplemented!() }
+
+/// std / io_nostd: a byte slice is a reader that hands out its prefix and shrinks (Kani IO1 checks the no_std implementation)
+impl<'a> Read for &'a [u8] {
+    open spec fn avail(&self) -> int { self@.len() as int }
+    open spec fn incremental() -> bool { true }
+    #[verifier::external_body]
+    fn read_exact(&mut self, buf: &mut [u8]) -> (r: Result<(), Error>) { unimplemented!() }
+}
 
 #[derive(Clone, Copy, PartialEq, Eq)]
 pub enum BlockType { Raw, RLE, Compressed, Reserved }
@@ -28,7 +49,9 @@ pub enum FrameDecoderError {
     FailedToReadBlockHeader(BlockHeaderReadError),
     FailedToReadBlockBody(DecodeBlockContentError),
     FailedToReadChecksum(Error),
+    FailedToDrainDecodebuffer(Error),
     NotYetInitialized,
+    Other,
 }
 
 #[verifier::external_body]
@@ -75,6 +98,7 @@ impl BlockDecoder {
     /// B1 (Kani) / B2 (Verus): the block body
     #[verifier::external_body]
     pub fn decode_block_content<R: Read>(&mut self, header: &BlockHeader, workspace: &mut DecoderScratch, source: &mut R) -> (res: Result<u64, DecodeBlockContentError>)
+        requires R::incremental() ==> old(source).avail() >= header.content_size,
         ensures
             final(source).avail() <= old(source).avail(),
             final(workspace).buffer.spec_len() >= old(workspace).buffer.spec_len(),
@@ -86,6 +110,180 @@ impl BlockDecoder {
 pub open spec fn max1(n: int) -> int { if n < 1 { 1 } else { n } }
 
 impl FrameDecoder {
+    /// FD4 / H2 / H4 (Kani): a successful init installs a fresh state whose consumed-bytes counter is exactly the header bytes taken
+    #[verifier::external_body]
+    pub fn init<R: Read>(&mut self, source: &mut R) -> (r: Result<(), FrameDecoderError>)
+        ensures
+            final(source).avail() <= old(source).avail(),
+            r is Ok ==> final(self).state is Some
+                && final(self).state->0.bytes_read_counter == old(source).avail() - final(source).avail()
+                && !final(self).state->0.frame_finished && final(self).state->0.check_sum is None && final(self).state->0.block_counter == 0,
+    { unimplemented!() }
+    /// D1/D2 (Kani): draining touches only the decode buffer
+    #[verifier::external_body]
+    pub fn read(&mut self, target: &mut [u8]) -> (r: Result<usize, Error>)
+        ensures
+            final(target)@.len() == old(target)@.len(),
+            r matches Ok(n) ==> n <= old(target)@.len(),
+            final(self).state is Some <==> old(self).state is Some,
+            old(self).state matches Some(s0) ==> ({
+                let s1 = final(self).state->0;
+                s1.bytes_read_counter == s0.bytes_read_counter && s1.block_counter == s0.block_counter && s1.frame_finished == s0.frame_finished
+                && s1.check_sum == s0.check_sum && s1.using_dict == s0.using_dict && s1.frame_header == s0.frame_header
+            }),
+    { unimplemented!() }
+
+    pub fn is_finished(&self) -> (r: bool)
+        ensures r == self.spec_is_finished(),
+{
+        let state = match &self.state {
+            None => return true,
+            Some(s) => s,
+        };
+        if state.frame_header.descriptor.content_checksum_flag() {
+            state.frame_finished && state.check_sum.is_some()
+        } else {
+            state.frame_finished
+        }
+    }
+
+    pub open spec fn spec_is_finished(&self) -> bool {
+        match self.state {
+            None => true,
+            Some(s) => if s.frame_header.descriptor.spec_checksum_flag() { s.frame_finished && s.check_sum is Some } else { s.frame_finished },
+        }
+    }
+
+#[verifier::loop_isolation(false)]
+    pub fn decode_from_to(
+        &mut self,
+        source: &[u8],
+        target: &mut [u8],
+    ) -> (r: Result<(usize, usize), FrameDecoderError>)
+        requires
+            source@.len() <= usize::MAX,      // true of every slice; stated because the spec-level length is unbounded
+            old(self).state matches Some(st) ==> st.bytes_read_counter + source@.len() <= u64::MAX && st.block_counter + source@.len() <= usize::MAX
+                && st.decoder_scratch.buffer.spec_len() >= 0,
+        ensures
+            r matches Ok(rw) ==> ({
+                let read = rw.0;
+                let written = rw.1;
+                // never more than it was given, and exactly what the consumed-bytes counter says
+                &&& read <= source@.len() && written <= old(target)@.len()
+                &&& final(self).state is Some
+                &&& (old(self).state matches Some(s0) ==> final(self).state->0.bytes_read_counter - s0.bytes_read_counter == read)
+                &&& (old(self).state is None ==> final(self).state->0.bytes_read_counter == read)
+            }),
+{
+        use FrameDecoderError as err;
+        let bytes_read_at_start = match &self.state {
+            Some(s) => s.bytes_read_counter,
+            None => 0,
+        };
+
+        if !self.is_finished() || self.state.is_none() {
+            let mut mt_source = source;
+
+            if self.state.is_none() {
+                self.init(&mut mt_source)?;
+            }
+
+            //pseudo block to scope "state" so we can borrow self again after the block
+            {
+                let state = match &mut self.state {
+                    Some(s) => s,
+                    None => vpanic(),
+                };
+                let mut block_dec = block_decoder_new();
+
+                if state.frame_header.descriptor.content_checksum_flag()
+                    && state.frame_finished
+                    && state.check_sum.is_none()
+                {
+                    //this block is needed if the checksum were the only 4 bytes that were not included in the last decode_from_to call for a frame
+                    if mt_source.len() >= 4 {
+                        let chksum = first4(mt_source);
+                        state.bytes_read_counter += 4;
+                        let chksum = le_u32(chksum);
+                        state.check_sum = Some(chksum);
+                        return Ok((4, 0));
+                    }
+                    // Not enough bytes for the checksum yet, nothing was consumed
+                    return Ok((0, 0));
+                }
+
+                let ghost cm0 = state.bytes_read_counter as int;
+                let ghost lm0 = mt_source@.len() as int;
+                let ghost bm0 = state.block_counter as int;
+                proof {
+                    if old(self).state is None {
+                        assert(cm0 == source@.len() - lm0);
+                        assert(bm0 == 0);
+                    } else {
+                        assert(lm0 == source@.len());
+                        assert(cm0 == old(self).state->0.bytes_read_counter);
+                        assert(bm0 == old(self).state->0.block_counter);
+                    }
+                }
+                loop 
+                    invariant
+                        mt_source@.len() <= lm0,
+                        state.bytes_read_counter - cm0 == lm0 - mt_source@.len(),
+                        state.block_counter >= bm0, 3 * (state.block_counter - bm0) <= lm0 - mt_source@.len(),
+                        cm0 + lm0 <= u64::MAX, bm0 + lm0 <= usize::MAX,
+                    decreases mt_source@.len(),
+{
+                    //check if there are enough bytes for the next header
+                    if mt_source.len() < 3 {
+                        break;
+                    }
+                    let (block_header, block_header_size) = block_dec
+                        .read_block_header(&mut mt_source)
+                        .map_err(|verif_e| err::FailedToReadBlockHeader(verif_e))?;
+
+                    // check the needed size for the block before updating counters.
+                    // If not enough bytes are in the source, the header will have to be read again, so act like we never read it in the first place
+                    if mt_source.len() < block_header.content_size as usize {
+                        break;
+                    }
+                    state.bytes_read_counter += u64::from(block_header_size);
+
+                    let bytes_read_in_block_body = block_dec
+                        .decode_block_content(
+                            &block_header,
+                            &mut state.decoder_scratch,
+                            &mut mt_source,
+                        )
+                        .map_err(|verif_e| err::FailedToReadBlockBody(verif_e))?;
+                    state.bytes_read_counter += bytes_read_in_block_body;
+                    state.block_counter += 1;
+
+                    if block_header.last_block {
+                        state.frame_finished = true;
+                        if state.frame_header.descriptor.content_checksum_flag() {
+                            //if there are enough bytes handle this here. Else the block at the start of this function will handle it at the next call
+                            if mt_source.len() >= 4 {
+                                let chksum = first4(mt_source);
+                                state.bytes_read_counter += 4;
+                                let chksum = le_u32(chksum);
+                                state.check_sum = Some(chksum);
+                            }
+                        }
+                        break;
+                    }
+                }
+            }
+        }
+
+        let result_len = self.read(target).map_err(|verif_e| err::FailedToDrainDecodebuffer(verif_e))?;
+        let bytes_read_at_end = match &mut self.state {
+            Some(s) => s.bytes_read_counter,
+            None => vpanic(),
+        };
+        let read_len = bytes_read_at_end - bytes_read_at_start;
+        Ok((read_len as usize, result_len))
+    }
+
 #[verifier::loop_isolation(false)]
     pub fn decode_blocks<R: Read>(
         &mut self,
@@ -94,6 +292,7 @@ impl FrameDecoder {
     ) -> (r: Result<bool, FrameDecoderError>)
         requires
             old(source).avail() >= 0,
+            !R::incremental(),      // the streaming entry point: a truncated source is an error (C10), not "need more"
             old(self).state matches Some(st) ==> st.bytes_read_counter + old(source).avail() <= u64::MAX && st.block_counter + old(source).avail() <= usize::MAX
                 && st.decoder_scratch.buffer.spec_len() >= 0
                 && !st.frame_finished,        // callers ask is_finished() first (SD1, FD3); a finished frame has no next block
